@@ -62,8 +62,13 @@ pub assume_specification<'a, T, P: FnMut(&'a T) -> bool>[ <core::slice::Iter<'a,
 /// A2: `str::trim` returns some substring (which one is irrelevant: no property lets an entry
 /// point alter its input)
 pub uninterp spec fn vx_trim(s: Seq<char>) -> Seq<char>;
+/// `char::is_whitespace` (vstd: std_specs::char::is_white_space)
+pub open spec fn char_is_ws(c: char) -> bool { vstd::std_specs::char::is_white_space(c) }
 pub assume_specification[ str::trim ](s: &str) -> (r: &str)
-    ensures r@ == vx_trim(s@);
+    ensures r@ == vx_trim(s@),
+        // std: "returns a string slice with leading and trailing whitespace removed",
+        // whitespace being the same Unicode White_Space property `char::is_whitespace` tests
+        r@.len() > 0 ==> !char_is_ws(r@[0]) && !char_is_ws(r@.last());
 
 
 /// A2: `str::chars().count()` is the number of chars; a str is at most isize::MAX bytes long
